@@ -1,6 +1,6 @@
 (* C04_sound: whatever ares_dns_parse() (fixes applied) accepts, every field of the record it
    returns is what the RFC reference decoder extracts from the same octets. *)
-From CAres.Wire Require Import Cursor Cursor_proofs Name Name_proofs Record Parse Parse_proofs Escape Escape_proofs RefDecode Bits Name_ref Parse_ref Parse_ref2 Parse_sets Parse_ref3 Parse_ref4.
+From CAres.Wire Require Import Cursor Cursor_proofs Name Name_proofs Record Parse Parse_proofs Escape Escape_proofs RefDecode Bits Name_ref Parse_ref Parse_ref2 Parse_sets Parse_ref3 Parse_ref4 Wnorm.
 From CAres.Gen Require Import Consts LeafFns Tables.
 Local Open Scope Z_scope.
 
@@ -41,11 +41,11 @@ Proof.
   end. repeat split; reflexivity.
 Qed.
 
-Lemma norm_parsed_assemble dq ans_p nss_p ars_p rc1 rc2 raw rcode :
+Lemma wnorm_parsed_assemble dq ans_p nss_p ars_p rc1 rc2 raw rcode :
   d_an dq = [] -> d_ns dq = [] -> d_ar dq = [] ->
-  norm_parsed (set_rcode (app_sect (app_sect (app_sect dq ARES_SECTION_ANSWER ans_p rc1) ARES_SECTION_AUTHORITY nss_p rc2)
+  wnorm_parsed (set_rcode (app_sect (app_sect (app_sect dq ARES_SECTION_ANSWER ans_p rc1) ARES_SECTION_AUTHORITY nss_p rc2)
                                    ARES_SECTION_ADDITIONAL ars_p raw) rcode)
-  = mkRec (d_id dq) (d_flags dq) (d_opcode dq) rcode 0 (d_qd dq) (map norm_rr ans_p) (map norm_rr nss_p) (map norm_rr ars_p).
+  = mkRec (d_id dq) (d_flags dq) (d_opcode dq) rcode 0 (d_qd dq) (map wnorm_rr ans_p) (map wnorm_rr nss_p) (map wnorm_rr ars_p).
 Proof. destruct dq. cbn. intros -> -> ->. reflexivity. Qed.
 
 Lemma lor_ext_rcode a x : 0 <= a < 16 -> Z.lor a (x * 16) = x * 16 + a.
@@ -54,9 +54,9 @@ Proof.
   rewrite (lor_shiftl_add x a 4) by (change (2 ^ 4) with 16; lia). reflexivity.
 Qed.
 
-Theorem sound_fixed bs r rf :
+Theorem sound_fixed_w bs r rf :
   bytes_ok bs ->
-  dns_parse bs 0 = Ok r -> ref_decode bs = Some rf -> fields_agree r (rf_rec rf).
+  dns_parse bs 0 = Ok r -> ref_decode bs = Some rf -> wnorm_parsed r = wnorm_ref (rf_rec rf).
 Proof.
   intros Hb H F.
   assert (Hl : Z.of_nat (length bs) < 2 ^ 64).
@@ -114,27 +114,34 @@ Proof.
   (* the parsed record, spelled out *)
   unfold hq in Hhq. injection Hhq as I1 I2 I3 I4. injection Hids as J1 J2 J3.
   set (raw := rc_fold (rc_fold (rc_fold (d_raw_rcode dq) e1) e2) e3) in *.
-  assert (Hr : norm_parsed r = mkRec id (hdr_flags_c fl) (Z.land (Z.shiftr fl 11) 15) (reported_rcode raw) 0
-                                    [mkQ (escape_name qn) qt qc] (map norm_rr ans) (map norm_rr nss) (map norm_rr ars)).
+  assert (Hr : wnorm_parsed r = mkRec id (hdr_flags_c fl) (Z.land (Z.shiftr fl 11) 15) (reported_rcode raw) 0
+                                    [mkQ (escape_name qn) qt qc] (map wnorm_rr ans) (map wnorm_rr nss) (map wnorm_rr ars)).
   { assert (Hrr : r = set_rcode (app_sect (app_sect (app_sect dq ARES_SECTION_ANSWER ans_p (rc_fold (d_raw_rcode dq) e1))
                                   ARES_SECTION_AUTHORITY nss_p (rc_fold (rc_fold (d_raw_rcode dq) e1) e2))
                                   ARES_SECTION_ADDITIONAL ars_p raw) (reported_rcode raw)).
     { injection H as <-. unfold reported_rcode. destruct (rcode_isvalid raw); reflexivity. }
     destruct Hd0 as (A1 & A2 & A3). destruct Hdq as (B1 & B2 & B3 & _).
-    rewrite Hrr, norm_parsed_assemble by congruence.
+    rewrite Hrr, wnorm_parsed_assemble by congruence.
     rewrite J1, J2, J3, I1, I2, I3, Hqd, I4, N1, N2, N3. reflexivity. }
-  unfold fields_agree. rewrite Hr.
+  rewrite Hr.
   assert (Hraw0 : d_raw_rcode dq = fl mod 16).
   { destruct Hdq as (_ & _ & _ & ->). rewrite Hrc0. apply rcode4_agree. }
   assert (Hraw : raw = rc_fold (fl mod 16) (e1 ++ e2 ++ e3)).
   { unfold raw, rc_fold. rewrite !fold_left_app, Hraw0. reflexivity. }
   assert (H16 : 0 <= fl mod 16 < 16) by (apply Z.mod_pos_bound; lia).
   destruct (e1 ++ e2 ++ e3) as [|x [|y l]] eqn:Ee; try discriminate; injection F as <-;
-    unfold norm_ref; cbn [rf_rec d_id d_flags d_opcode d_rcode d_qd d_an d_ns d_ar];
+    unfold wnorm_ref; cbn [rf_rec d_id d_flags d_opcode d_rcode d_qd d_an d_ns d_ar];
     rewrite hdr_flags_agree, (opcode_agree fl Hfl0), Hraw; unfold rc_fold; cbn [fold_left].
   - reflexivity.
   - rewrite (lor_ext_rcode _ x H16). reflexivity.
 Qed.
+
+(* ... hence at the level of RefDecode.fields_agree *)
+Theorem sound_fixed bs r rf :
+  bytes_ok bs ->
+  dns_parse bs 0 = Ok r -> ref_decode bs = Some rf -> fields_agree r (rf_rec rf).
+Proof. intros Hb H F. unfold fields_agree. apply wnorm_agree_norm. apply (sound_fixed_w bs r rf Hb H F). Qed.
+
 
 (* the theorem is not vacuous: a response with a compressed A, TXT and MX answer and an OPT RR that
    carries extended-rcode bits is accepted by the parser model and followed by the reference *)
